@@ -118,13 +118,16 @@ def run_check(prop, tier, fn, level="other", technique=""):
   evidence_path = os.path.join(EVIDENCE_DIR, "%s.json" % prop)
   try:
     fn(rep)
-    for rule, minimum in sorted(rep.min_instances.items()):
-      got = rep.rule_counts.get(rule, 0)
-      if got < minimum:
-        raise AnalysisError(
-            "instance-count rule %s matched %d instances, fewer than the %d "
-            "confirmed by hand on the reference tree (vacuous pass refused)"
-            % (rule, got, minimum))
+    if not rep.findings:
+      # a run without findings must not be vacuous; a run with findings is
+      # reported as such whatever the instance counts are
+      for rule, minimum in sorted(rep.min_instances.items()):
+        got = rep.rule_counts.get(rule, 0)
+        if got < minimum:
+          raise AnalysisError(
+              "instance-count rule %s matched %d instances, fewer than the "
+              "%d confirmed by hand on the reference tree (vacuous pass "
+              "refused)" % (rule, got, minimum))
   except AnalysisError as e:
     print("ANALYSIS-ERROR property=%s %s" % (prop, e))
     _write_evidence(evidence_path, rep, level, seed, t0, technique,
